@@ -70,6 +70,7 @@ func WorkerMain(args []string) int {
 		_ = enc.Encode(wline{Ev: "start", I: i, ID: cases[i].ID})
 		fmt.Fprintf(os.Stderr, "=== case %d %s\n", i, cases[i].ID)
 		ctx := &Ctx{Tier: tier, Seed: seed, Index: i, notePath: args[7], Scratch: args[8]}
+		ctx.beat = func() { _ = enc.Encode(wline{Ev: "beat", I: i}) }
 		res := cases[i].Run(ctx)
 		ctx.Done()
 		for k := range res.Violations {
